@@ -109,3 +109,6 @@ EXPLANATION = "under construction"
 ASSUMPTIONS = []
 TRUSTED = []
 BOUNDED = [{"name": "type-conformance-and-acceptance", "script": "bounded/b02_type_conformance.py"}]
+
+from contracts.adapt_arms import dispatch_unit  # noqa: E402
+UNITS.append(dispatch_unit("C02"))
